@@ -102,11 +102,111 @@ impl<H: ElementHasher> ModelCoin<H> {
 }
 
 fn run_c20() -> Outcome {
-    let cidx = tape::w("coin", 12) as usize;
+    // one run in thirteen puts the coin on the transparent stub hasher, where every number of
+    // trailing zero bits (0..=64) in the nonce-merged digest occurs - out of reach of any real
+    // hash function within a test budget (33 zero bits cost about 2^33 hashes)
+    let cidx = tape::w("coin", 13) as usize;
     stats::sig(cidx as u64);
-    let r = with_coin_hasher!(cidx, H, B => c20_case::<B, H>(COIN_NAMES[cidx]));
+    let r = if cidx == 12 {
+        stats::probe("probe.coin_on_the_transparent_stub_hasher");
+        c20_case::<F64, StubHasher>("StubHasher/f64")
+    } else {
+        with_coin_hasher!(cidx, H, B => c20_case::<B, H>(COIN_NAMES[cidx]))
+    };
     stats::nontrivial();
     r
+}
+
+// TRANSPARENT STUB HASHER
+// ================================================================================================
+
+/// A hasher seam: a deterministic, non-cryptographic mixing function with a twist in
+/// `merge_with_int` - for values of 2^32 and above the first eight digest bytes are shifted left by `value mod 65` bits, so
+/// that the proof-of-work count takes every value from 0 to 64. Only the generic coin runs on it.
+#[derive(Debug, Default, Copy, Clone, Eq, PartialEq)]
+pub struct StubDigest([u8; 32]);
+
+impl Digest for StubDigest {
+    fn as_bytes(&self) -> [u8; 32] {
+        self.0
+    }
+}
+impl Serializable for StubDigest {
+    fn write_into<W: utils::ByteWriter>(&self, target: &mut W) {
+        target.write_bytes(&self.0);
+    }
+}
+impl Deserializable for StubDigest {
+    fn read_from<R: utils::ByteReader>(source: &mut R) -> Result<Self, utils::DeserializationError> {
+        Ok(StubDigest(source.read_array()?))
+    }
+}
+
+fn stub_mix(bytes: &[u8], salt: u64) -> [u8; 32] {
+    let mut lanes = [0x9e37_79b9_7f4a_7c15u64 ^ salt, 0xbf58_476d_1ce4_e5b9, 0x94d0_49bb_1331_11eb, 0x2545_f491_4f6c_dd1d];
+    for (i, b) in bytes.iter().enumerate() {
+        let l = i % 4;
+        lanes[l] = (lanes[l] ^ (*b as u64)).wrapping_mul(0x0000_0100_0000_01b3).rotate_left(23) ^ lanes[(l + 1) % 4];
+    }
+    for _ in 0..3 {
+        for l in 0..4 {
+            lanes[l] = (lanes[l] ^ (lanes[l] >> 29)).wrapping_mul(0xbf58_476d_1ce4_e5b9) ^ lanes[(l + 3) % 4].rotate_left(17);
+        }
+    }
+    let mut out = [0u8; 32];
+    for l in 0..4 {
+        out[l * 8..(l + 1) * 8].copy_from_slice(&lanes[l].to_le_bytes());
+    }
+    out
+}
+
+pub struct StubHasher;
+
+impl Hasher for StubHasher {
+    type Digest = StubDigest;
+    const COLLISION_RESISTANCE: u32 = 0;
+    fn hash(bytes: &[u8]) -> StubDigest {
+        StubDigest(stub_mix(bytes, 1))
+    }
+    fn merge(values: &[StubDigest; 2]) -> StubDigest {
+        let mut b = Vec::with_capacity(64);
+        b.extend_from_slice(&values[0].0);
+        b.extend_from_slice(&values[1].0);
+        StubDigest(stub_mix(&b, 2))
+    }
+    fn merge_many(values: &[StubDigest]) -> StubDigest {
+        let mut b = Vec::with_capacity(32 * values.len());
+        for v in values {
+            b.extend_from_slice(&v.0);
+        }
+        StubDigest(stub_mix(&b, 3))
+    }
+    fn merge_with_int(seed: StubDigest, value: u64) -> StubDigest {
+        let mut b = Vec::with_capacity(40);
+        b.extend_from_slice(&seed.0);
+        b.extend_from_slice(&value.to_le_bytes());
+        let mut d = stub_mix(&b, 4);
+        let head = u64::from_le_bytes(d[..8].try_into().unwrap()) | 1;
+        // only for large values (nonces): the coin also merges its small draw counter through this
+        // function, and draws must keep their entropy
+        if value >= 1 << 32 {
+            let shift = (value % 65) as u32;
+            let head = if shift == 64 { 0 } else { head << shift };
+            d[..8].copy_from_slice(&head.to_le_bytes());
+        }
+        StubDigest(d)
+    }
+}
+
+impl ElementHasher for StubHasher {
+    type BaseField = F64;
+    fn hash_elements<E: FieldElement<BaseField = F64>>(elements: &[E]) -> StubDigest {
+        let mut b = Vec::new();
+        for e in elements {
+            e.write_into(&mut b);
+        }
+        StubDigest(stub_mix(&b, 5))
+    }
 }
 
 fn canonical<E: FieldElement>(e: &E) -> bool {
@@ -273,6 +373,9 @@ where
                 let za = a.check_leading_zeros(nonce);
                 let zb = b.check_leading_zeros(nonce);
                 let zm = m.leading_zeros(nonce);
+                if zm > 32 {
+                    stats::probe("probe.proof_of_work_count_above_32");
+                }
                 if za != zb {
                     fail!("replicas-disagree", "check_leading_zeros", "{cname} step {step}");
                 }
